@@ -231,7 +231,7 @@ func c06Unit(c *RunCtx, unit int) {
 func init() {
 	register(&Check{
 		ID: "C06", Level: "exploration",
-		Rule: "per unit two rounds: 0-3 remember cookies of the target on as many browsers plus one of a bystander (when the remember module is loaded), then a password change by recovery link or programmatic update with old/new pairs from {fresh, identical, 1 byte, 71/72/73 bytes, non-ASCII, NUL-containing, policy-violating}; afterwards real requests: every earlier cookie presented from a session-less browser, the bystander's cookie, the spent recovery token again, login with the old and the new password on a clean browser, login of the bystander; plus direct inspection of the stored hash (bcrypt shape, verifies new, not old unless bcrypt-equivalent) and of the diff (only the target's record/token rows). distinct_nontrivial = distinct (route, new-password class, #cookies, remember loaded, login-after-recovery, mode, applied) signatures.",
+		Rule:  "per unit two rounds: 0-3 remember cookies of the target on as many browsers plus one of a bystander (when the remember module is loaded), then a password change by recovery link or programmatic update with old/new pairs from {fresh, identical, 1 byte, 71/72/73 bytes, non-ASCII, NUL-containing, policy-violating}; afterwards real requests: every earlier cookie presented from a session-less browser, the bystander's cookie, the spent recovery token again, login with the old and the new password on a clean browser, login of the bystander; plus direct inspection of the stored hash (bcrypt shape, verifies new, not old unless bcrypt-equivalent) and of the diff (only the target's record/token rows). distinct_nontrivial = distinct (route, new-password class, #cookies, remember loaded, login-after-recovery, mode, applied) signatures.",
 		Units: func(t string) int { return tierN(t, 320, 15000) },
 		Run:   c06Unit,
 		Floors: func(t string) map[string]int {
